@@ -277,7 +277,10 @@ def run_reencode(tier, acc):
                 if tag != snmp.PDU_RESPONSE and i % 9:
                     continue
                 ei = (0, 1, 127, 128, 2**31 - 1, -1)[i % 6]
-                node = snmp.pdu_node(tag, 1000 + i, 0, ei, [(OID, v), (OID[:-1] + (5,), ("int", i))])
+                # request ids over the whole Integer32 range (agents pick the
+                # ids of the notifications they send)
+                rid = (1000 + i, -1, -128, -129, -(2**31), 0, 2**31 - 1, 255, -32769)[i % 9]
+                node = snmp.pdu_node(tag, rid, 0, ei, [(OID, v), (OID[:-1] + (5,), ("int", i))])
                 if form:
                     apply_form_everywhere(node, form)
                 raw = node.encode()
@@ -300,7 +303,7 @@ def run_reencode(tier, acc):
                         # markers (only agents send them): not judged
                         raise LookupError
                     rebuilt = bytes(type(obj)(obj.value))
-                    check("PDU rebuilt from its decoded content", raw, rebuilt, {"value": vdesc, "form": form, "tag": tag, "error_index": ei})
+                    check("PDU rebuilt from its decoded content", raw, rebuilt, {"value": vdesc, "form": form, "tag": tag, "error_index": ei, "request_id": rid})
                 except LookupError:
                     pass
                 except Exception as exc:  # noqa
